@@ -76,9 +76,9 @@ theorem Linked.continuous : ∀ {hs : List VH}, Linked hs → checkContinuous hs
 
 /-! ### the response shape of the no-sampling case -/
 
-theorem cmTail_short_gap {c : ReqContent} {a : VH} {t : List VH} {l : VH}
+theorem cmTail_short_gap {lastN : Nat} {c : ReqContent} {a : VH} {t : List VH} {l : VH}
     (hfirst : a.number = c.startNumber) (hl : Linked ((a :: t) ++ [l])) :
-    cmTail c (a :: t) l 0 0 (a :: t).length = .ok (.ok (0, 0, (a :: t).length)) := by
+    cmTail lastN c (a :: t) l 0 0 (a :: t).length = .ok (.ok (0, 0, (a :: t).length)) := by
   obtain ⟨g, hg, hp⟩ := Linked.getLast_parent (by simp) hl
   obtain ⟨h1, h2, -, -⟩ := isParentOf_eq_true.1 hp
   unfold cmTail
@@ -95,7 +95,7 @@ theorem checkMatched_short_gap {lastN : Nat} {c : ReqContent} {hs : List VH} {l 
   obtain ⟨a, t, rfl⟩ := List.exists_cons_of_ne_nil hne
   have ha : a.number = c.startNumber := by simpa using hfirst
   have hsorted := Linked.sorted (Linked.prefix hl)
-  have htail := cmTail_short_gap ha hl
+  have htail := cmTail_short_gap (lastN := lastN) ha hl
   have hmid : cmMid lastN c (a :: t) l 0 = .ok (.ok (0, 0, (a :: t).length)) := by
     unfold cmMid cmShape
     have : ¬ (a :: t).length - 0 > lastN := by omega
@@ -105,6 +105,80 @@ theorem checkMatched_short_gap {lastN : Nat} {c : ReqContent} {hs : List VH} {l 
   simp [hsorted, ha]
   exact hmid
 
+/-! ### the response shape without sampled headers in the sampling case -/
+
+/-- after the reorg-section checks: `lastN` last headers from position `reorg`, ending at the
+parent of the last header, pass when the first one starts at the requested start or
+`checkNoSampled` accepts it -/
+theorem cmMid_no_sampled {lastN : Nat} {c : ReqContent} {hs : List VH} {l f g : VH} {reorg : Nat}
+    (hlen : hs.length = reorg + lastN) (hpos : 0 < lastN)
+    (hf : hs[reorg]? = some f) (hg : hs.getLast? = some g) (hgl : g.number + 1 = l.number)
+    (hl : l.number ≤ U64_MAX)
+    (hns : checkNoSampled lastN c f l.number lastN = none) :
+    cmMid lastN c hs l reorg = .ok (.ok (reorg, 0, lastN)) := by
+  unfold cmMid cmShape
+  have h2 : hs.length - reorg = lastN := by omega
+  simp only [h2]
+  unfold cmTail
+  simp [hg, hgl, hf, addU64, hl, hns, hpos]
+  rfl
+
+/-- **the shape check accepts an answer without sampled headers**: reorg headers `rs` (below the
+start, ending at `start - 1`, `lastN` of them or beginning at block 1) followed by exactly `lastN`
+headers above the start that end at the parent of the last header and pass `checkNoSampled` -/
+theorem checkMatched_no_sampled {lastN : Nat} {c : ReqContent} {rs : List VH} {a : VH} {t : List VH}
+    {l g : VH} (hsorted : checkMatched.sorted (rs ++ a :: t) = true)
+    (hrs : ∀ x ∈ rs, x.number < c.startNumber)
+    (hreorg : rs ≠ [] → (rs.length = lastN ∨ rs.head?.map (·.number) = some 1) ∧
+      rs.getLast?.map (·.number) = some (c.startNumber - 1))
+    (hstart : c.startNumber < a.number) (hlen : (a :: t).length = lastN)
+    (hg : (a :: t).getLast? = some g) (hgl : g.number + 1 = l.number) (hl : l.number ≤ U64_MAX)
+    (hns : checkNoSampled lastN c a l.number lastN = none) :
+    checkMatched lastN c (rs ++ a :: t) l = .ok (.ok (rs.length, 0, lastN)) := by
+  have htw : ((rs ++ a :: t).takeWhile (fun h => decide (h.number < c.startNumber))).length
+      = rs.length := by
+    rw [List.takeWhile_append_of_pos (by simpa using hrs)]
+    have : ¬ a.number < c.startNumber := by omega
+    simp [this]
+  have hmid : cmMid lastN c (rs ++ a :: t) l rs.length = .ok (.ok (rs.length, 0, lastN)) := by
+    refine cmMid_no_sampled (f := a) (g := g) ?_ ?_ ?_ ?_ hgl hl hns
+    · simp only [List.length_append]; omega
+    · simp only [List.length_cons] at hlen; omega
+    · simp
+    · rw [List.getLast?_append, hg]; rfl
+  have hemp : (rs ++ a :: t).isEmpty = false := by simp
+  have hhead : rs ≠ [] → (rs ++ a :: t).head? = rs.head? := by
+    intro h; cases rs with
+    | nil => exact absurd rfl h
+    | cons r0 rt => rfl
+  have hlr : rs ≠ [] → (rs ++ a :: t)[rs.length - 1]? = rs.getLast? := by
+    intro h
+    have : 0 < rs.length := List.length_pos_iff.2 h
+    rw [List.getLast?_eq_getElem?, List.getElem?_append_left (by omega)]
+  rw [checkMatched_eq]
+  simp only [htw]
+  generalize rs ++ a :: t = hs at hsorted hemp hhead hlr hmid ⊢
+  simp only [hemp, hsorted, Bool.false_eq_true, if_false, Bool.not_true]
+  by_cases hr : rs = []
+  · subst hr
+    simpa using hmid
+  · have hr0 : rs.length ≠ 0 := by simpa using hr
+    obtain ⟨h1, h2⟩ := hreorg hr
+    rw [hhead hr, hlr hr]
+    cases hgl' : rs.getLast? with
+    | none => simp [hgl'] at h2
+    | some lr =>
+      have h2' : lr.number = c.startNumber - 1 := by simpa [hgl'] using h2
+      rcases h1 with h1 | h1
+      · rw [h1] at hmid
+        simp [h1, h2']
+        exact hmid
+      · by_cases h3 : rs.length = lastN
+        · rw [h3] at hmid
+          simp [h3, h2']
+          exact hmid
+        · simp [hr0, h3, h1, h2']
+          exact hmid
 /-- the number of the last header of a run that starts at block `n` -/
 theorem Linked.number_last : ∀ {hs : List VH} {l : VH} {n : Nat},
     hs.head?.map (·.number) = some n → Linked (hs ++ [l]) → l.number = n + hs.length
